@@ -161,6 +161,27 @@ def Pkt.triple (p : Pkt) : Triple := ⟨p.src, p.dst, p.seq⟩
 def Pkt.validBasic (p : Pkt) : Bool :=
   !p.src.isEmpty && !p.dst.isEmpty && p.src != p.dst && p.seq != 0 && p.hasData
 
+/-- outcome of `PacketKeeper.CallPacket(cctx, "onRecvPacket", packet)` — external (EVM): the contract returned
+result code 0, returned a result code ≠ 0, or the call itself failed (revert, failing post-transaction hook). -/
+inductive Cb where
+  | ok | code | evmFail
+  deriving Repr, DecidableEq
+
+/-- which branch of `msg_server.RecvPacket` / `AcknowledgePacket` wrote an acknowledgement. -/
+inductive AckClass where
+  | cbOk            -- callback returned code 0: `NewAcknowledgement(result.Code, …, relayer, …)`
+  | cbCode          -- callback returned code ≠ 0: same constructor, state of the callback discarded
+  | cbEvmFail       -- `CallPacket` failed: error ack "receive packet callback failed"
+  | dstNotFound     -- destination is another chain without client: error ack "dstChain not found"
+  | relayed         -- ack bytes of the counterparty, stored by `AcknowledgePacket` on a relay chain
+  deriving Repr, DecidableEq
+
+/-- a written acknowledgement: its fee-recipient field (`none` for relayed bytes) and the branch that wrote it. -/
+structure AckRec where
+  relayer : Option Str
+  cls : AckClass
+  deriving Repr, DecidableEq
+
 structure Signer where
   raw : Str               -- `msg.Signer` as written in the message
   canon : Str             -- `msg.GetSigners()[0].String()` (canonical bech32 of the same account)
@@ -172,12 +193,11 @@ structure State where
   clients : Clients
   receipts : List Triple
   commits : List Triple                    -- triples with a stored packet commitment
-  acks : List (Triple × Option Str)        -- written acks; `some r` = built by RecvPacket with fee recipient r,
-                                           -- `none` = relayed ack bytes of the counterparty
+  acks : List (Triple × AckRec)            -- written acks
   deriving Repr, DecidableEq
 
-def hasAck (acks : List (Triple × Option Str)) (t : Triple) : Bool := acks.any (fun x => x.1 == t)
-def ackOf (acks : List (Triple × Option Str)) (t : Triple) : Option (Option Str) :=
+def hasAck (acks : List (Triple × AckRec)) (t : Triple) : Bool := acks.any (fun x => x.1 == t)
+def ackOf (acks : List (Triple × AckRec)) (t : Triple) : Option AckRec :=
   match acks with
   | [] => none
   | (k, v) :: rest => if k = t then some v else ackOf rest t
@@ -201,7 +221,7 @@ def validatePacket (st : State) (p : Pkt) : Bool :=
 
 inductive Msg where
   | update (s : Signer) (chain : Str) (hdrOK : Bool) (newTss : Option Str)
-  | recv (s : Signer) (p : Pkt) (proofOK : Bool)
+  | recv (s : Signer) (p : Pkt) (proofOK : Bool) (cb : Cb)
   | ack (s : Signer) (p : Pkt) (genuine proofOK : Bool) (ackRelayer : Str) (ackDecodes evmOK : Bool)
   deriving Repr, DecidableEq
 
@@ -219,7 +239,7 @@ def execUpdate (st : State) (s : Signer) (chain : Str) (hdrOK : Bool) (newTss : 
         | .other n, _ => .ok { st with clients := setClient st.clients chain (.other (n + 1)) }
 
 /-- msg_server.RecvPacket (PacketKeeper.RecvPacket first, then the relayer lookup, then the ack). -/
-def execRecv (st : State) (s : Signer) (p : Pkt) (proofOK : Bool) : Outcome State :=
+def execRecv (st : State) (s : Signer) (p : Pkt) (proofOK : Bool) (cb : Cb) : Outcome State :=
   if !validatePacket st p then .err "validate"
   else if st.receipts.contains p.triple then .err "receipt-exists"
   else match getClient st.clients p.src with
@@ -236,10 +256,22 @@ def execRecv (st : State) (s : Signer) (p : Pkt) (proofOK : Bool) : Outcome Stat
         | .notFound => .err "relayer-not-found"
         | .indexPanic => .panic "Addresses[i]"
         | .found rl =>
-          if p.dst == st.self || !dstClient then
+          -- every branch that writes an acknowledgement records the looked-up `rl` as fee recipient
+          if p.dst == st.self then
             if hasAck st1.acks p.triple then .err "ack-exists"
-            else .ok { st1 with acks := (p.triple, some rl) :: st1.acks }
+            else match cb with
+              | .evmFail => .ok { st1 with acks := (p.triple, ⟨some rl, .cbEvmFail⟩) :: st1.acks }
+              | .code => .ok { st1 with acks := (p.triple, ⟨some rl, .cbCode⟩) :: st1.acks }
+              | .ok => .ok { st1 with acks := (p.triple, ⟨some rl, .cbOk⟩) :: st1.acks }
+          else if !dstClient then
+            if hasAck st1.acks p.triple then .err "ack-exists"
+            else .ok { st1 with acks := (p.triple, ⟨some rl, .dstNotFound⟩) :: st1.acks }
           else .ok st1
+
+/-- the branch in which an accepted receive writes its acknowledgement (specification; `execRecv` does not use it). -/
+def recvClass (st : State) (p : Pkt) (cb : Cb) : AckClass :=
+  if p.dst == st.self then (match cb with | .ok => .cbOk | .code => .cbCode | .evmFail => .cbEvmFail)
+  else .dstNotFound
 
 /-- msg_server.Acknowledgement (PacketKeeper.AcknowledgePacket first). -/
 def execAck (fold : Str → Str → Bool) (st : State) (s : Signer) (p : Pkt) (genuine proofOK : Bool)
@@ -256,7 +288,7 @@ def execAck (fold : Str → Str → Bool) (st : State) (s : Signer) (p : Pkt) (g
         else
           let st2 : State :=
             if p.src != st.self then
-              { st1 with acks := (p.triple, none) :: st1.acks.filter (fun x => x.1 != p.triple) }
+              { st1 with acks := (p.triple, ⟨none, .relayed⟩) :: st1.acks.filter (fun x => x.1 != p.triple) }
             else st1
           if !ackDecodes then .err "ack-decode"
           else if p.src == st.self then
@@ -268,7 +300,7 @@ def execAck (fold : Str → Str → Bool) (st : State) (s : Signer) (p : Pkt) (g
 
 def exec (fold : Str → Str → Bool) (st : State) : Msg → Outcome State
   | .update s chain hdrOK newTss => execUpdate st s chain hdrOK newTss
-  | .recv s p proofOK => execRecv st s p proofOK
+  | .recv s p proofOK cb => execRecv st s p proofOK cb
   | .ack s p genuine proofOK rl dec evm => execAck fold st s p genuine proofOK rl dec evm
 
 /-- `BaseApp.runTx`: the message runs on a cache of the state which is written only if it succeeds;
